@@ -455,4 +455,41 @@ theorem simplify_testClause (a : List Nat) (v : Bytes) (x : Test) (h : x.WF) :
 end TestBridge
 
 
+/-! ### double-quoted literal -/
+
+def dqWord (a : List Nat) (v : Bytes) (d : Nat) (lit : Bytes) : Node :=
+  .mk .word a v [.mk .dbl [d] [] [.mk .lit [] lit []]]
+
+theorem simplifyWord_dq (d : Nat) (lit : Bytes) :
+    (simplifyWord [.mk .dbl [d] [] [.mk .lit [] lit []]]).1 =
+      [match rewriteDq lit with
+       | some nv => .mk .sgl [d] nv []
+       | none => .mk .dbl [d] [] [.mk .lit [] lit []]] := by
+  simp only [simplifyWord, rewriteDq]
+  cases h : dqToSq lit with
+  | none => simp
+  | some nv =>
+    by_cases e : nv = lit
+    · simp [e]
+    · simp [e]
+
+/-- What `Simplify` does to a word that is one `"lit"` (`d = 0`) or `$"lit"` (`d = 1`). -/
+theorem simplify_dqWord (a : List Nat) (v : Bytes) (d : Nat) (lit : Bytes) :
+    (simplify (dqWord a v d lit)).1 =
+      .mk .word a v [match rewriteDq lit with
+       | some nv => .mk .sgl [d] nv []
+       | none => .mk .dbl [d] [] [.mk .lit [] lit []]] := by
+  have hs : 2 * size (dqWord a v d lit) + 1 = 6 + 1 := by
+    simp [dqWord, size, sizeList]
+  unfold simplify
+  rw [hs]
+  have h := simplifyWord_dq d lit
+  cases hr : rewriteDq lit with
+  | some nv =>
+    rw [hr] at h
+    simp [simp, dqWord, visit, h, Node.kids, Node.ty, Node.attrs, Node.val]
+  | none =>
+    rw [hr] at h
+    simp [simp, dqWord, visit, h, Node.kids, Node.ty, Node.attrs, Node.val]
+
 end ShVerif.C04
